@@ -96,10 +96,28 @@ UpdSig(u, item, names, values) ==
          THEN { <<"rhs-reads-a-target">> } ELSE {})
   \cup (LET res == ApplyU(u, item, names, values, {"pk"}) IN
         IF ItemHasEmpty(item) \/ (res.ok /\ ItemHasEmpty(res.item)) THEN { <<"empty-container">> } ELSE {})
-TextSig(e) == LET ts == Lex(e.text) IN
+ReservedNested(ts) == \E p \in DOMAIN ts : p > 1 /\ ts[p].t = "NAME" /\ TokAt(ts, p + 1) # "(" /\ UpperSeq(ts[p].s) \in ReservedWords /\ ts[p - 1].t = "."
+ReservedTop(ts) == \E p \in DOMAIN ts : ts[p].t = "NAME" /\ TokAt(ts, p + 1) # "(" /\ UpperSeq(ts[p].s) \in ReservedWords /\ (p = 1 \/ ts[p - 1].t # ".")
+TextMarks(e) == LET ts == Lex(e.text) IN
+                (IF ReservedNested(ts) /\ ~ReservedTop(ts) THEN { <<"reserved", "nested-only">> } ELSE {})
+                \cup (IF ReservedTop(ts) THEN { <<"reserved", "top">> } ELSE {})
+PhMarks(e) ==
+  IF "pk" \notin DOMAIN e THEN {} ELSE
+  LET ts == Lex(e.text)
+      cond == e.op = "MatchText"
+      pr == IF cond THEN ParseCond(ts) ELSE ParseUpdate(ts)
+      used == IF ~pr.ok THEN {} ELSE IF cond THEN CondNames(pr.ast) \cup CondVals(pr.ast) ELSE UpdNames(pr.ast) \cup UpdVals(pr.ast)
+      supplied == (DOMAIN e.names) \cup (DOMAIN e.values)
+      unused == supplied \ used
+      masked == { k \in unused : \E i \in DOMAIN e.pk : e.pk[i][1] = k /\ IsSubB(e.pk[i][2], e.text) }
+  IN (IF used \ supplied # {} THEN { <<"placeholders", "undefined">> } ELSE {})
+     \cup (IF unused # {} /\ unused = masked THEN { <<"placeholders", "unused-but-substring-of-the-text">> } ELSE {})
+     \cup (IF unused \ masked # {} THEN { <<"placeholders", "unused">> } ELSE {})
+TextSig0(e) == LET ts == Lex(e.text) IN
               IF e.op = "MatchText" THEN (IF ParseCond(ts).ok THEN CondSig(ParseCond(ts).ast, e.item, e.names, e.values) ELSE { <<"not-a-sentence">> })
               ELSE (IF ParseUpdate(ts).ok THEN UpdSig(ParseUpdate(ts).ast, e.item, e.names, e.values)
                     ELSE IF LaxUpdate(ts) THEN { <<"not-a-sentence", "update-operand-kinds">> } ELSE { <<"not-a-sentence">> })
+TextSig(e) == TextSig0(e) \cup TextMarks(e) \cup PhMarks(e)
 LabSig(e) == IF e.op \in {"MatchText", "ApplyText"} THEN TextSig(e) ELSE
              IF e.op = "Match" THEN CondSig(e.ast, e.item, e.names, e.values) \cup (IF ItemHasEmpty(e.item) THEN { <<"empty-container">> } ELSE {})
              ELSE UpdSig(e.ast, e.item, e.names, e.values)
@@ -197,6 +215,27 @@ EventFails(d, e) ==
      \cup (IF "Outcome" \in f1 \/ "Outcome" \in f2 THEN {}
            ELSE Tag("o1.", ObsAll(After(d, e), e.o1)) \cup Tag("o2.", ObsAll(After(d, e), e.o2)))
 
+\* signatures of data-plane events that known findings are about
+RECURSIVE HasDot(_)
+HasDot(bytes) == bytes # <<>> /\ (Head(bytes) = 46 \/ HasDot(Tail(bytes)))
+KeyHasDot(tbl, it) == \E a \in KeyAttrs(tbl) : a \in DOMAIN it /\ it[a].t \in {"S", "B"} /\ HasDot(Pay(it[a]))
+OpSig(d, e) ==
+  IF e.op \in {"PutItem", "GetItem", "UpdateItem", "DeleteItem"} /\ e.t \in DOMAIN d[e.c].tables
+  THEN LET tbl == d[e.c].tables[e.t]
+           k == IF e.op = "PutItem" THEN e.item ELSE e.key
+       IN (IF KeyHasDot(tbl, k) \/ (\E it \in tbl.items : KeyHasDot(tbl, it)) THEN { <<"key-contains-dot">> } ELSE {})
+          \cup (IF e.op = "UpdateItem" /\ \E i \in DOMAIN AllTargets(e.upd) :
+                      ResolveOK(AllTargets(e.upd)[i], e.names) /\ Resolve(AllTargets(e.upd)[i], e.names)[1].n \in KeyAttrs(tbl)
+                 THEN { <<"update-targets-key-attribute">> } ELSE {})
+  ELSE IF e.op = "Scan" /\ e.t \in DOMAIN d[e.c].tables /\ (\E it \in d[e.c].tables[e.t].items : KeyHasDot(d[e.c].tables[e.t], it))
+  THEN { <<"key-contains-dot">> }
+  ELSE IF e.op = "Query" /\ e.t \in DOMAIN d[e.c].tables
+  THEN LET tbl == d[e.c].tables[e.t]
+           tg == Target(tbl, e.index)
+       IN IF tg.ok /\ PlaceholdersOK(ReadUsedNames(e), ReadUsedVals(e), e.names, e.values) /\ ~ValidKeyCond(e.kc, e.names, tg.hash, tg.range)
+          THEN { <<"keycond-invalid">> } ELSE {}
+  ELSE {}
+
 TraceInit == l = 1 /\ db = InitDB /\ fails = <<>> /\ TLCSet(1, 1) /\ TLCSet(2, <<>>)
 
 TraceNext ==
@@ -211,7 +250,7 @@ TraceNext ==
      ELSE LET f == EventFails(db, e) IN
           IF f = {}
           THEN db' = After(db, e) /\ l' = l + 1 /\ UNCHANGED fails
-          ELSE /\ fails' = Append(fails, [l |-> l, op |-> e.op, oc |-> OcOf(e.r1), parts |-> f, sig |-> {}])
+          ELSE /\ fails' = Append(fails, [l |-> l, op |-> e.op, oc |-> OcOf(e.r1), parts |-> f, sig |-> OpSig(db, e)])
                /\ l' = NextReset(l + 1) /\ db' = InitDB
   /\ TLCSet(1, l') /\ TLCSet(2, fails')
 
